@@ -406,6 +406,115 @@ Section Laws.
       + right. split; [exact Hn|]. cbn. rewrite Hcl.
         destruct (s_decl (srcw resp) <? 0) eqn:E2; [lia|]. reflexivity.
   Qed.
+
+  (** *** histories with reloads and a memoryCache: the limit in force *)
+  Definition seff_of (g : config * Z) : Z := norm_limit (effective (c_pool (fst g)) (c_proxy (fst g))).
+
+  Lemma fetch_payload_bound : forall limit s b,
+    fetch limit s = Payload b -> blen b <= norm_limit limit.
+  Proof.
+    intros limit [d bytes cl] b H. unfold fetch_payload in H. cbn [s_decl s_bytes s_clean] in H.
+    pose proof (bl_nonneg _ _ _ L bytes) as Hn.
+    destruct (norm_limit limit <? 0) eqn:E0; [discriminate|].
+    destruct (norm_limit limit <? d) eqn:E1; [discriminate|].
+    destruct (0 <? d) eqn:E2.
+    - destruct (d <=? blen bytes) eqn:E3; [|discriminate]. inversion H as [Hb].
+      rewrite (bl_take_len _ _ _ L) by lia. lia.
+    - destruct (d =? 0) eqn:E3.
+      + inversion H as [Hb]. rewrite <- Hb, (bl_nil _ _ _ L). lia.
+      + destruct (blen bytes <? norm_limit limit) eqn:E4.
+        * destruct cl; inversion H as [Hb]; rewrite <- Hb; lia.
+        * destruct (norm_limit limit <? blen bytes) eqn:E5; [discriminate|].
+          destruct cl; inversion H as [Hb]; rewrite <- Hb; lia.
+  Qed.
+
+  Lemma fetch_streamed_negative : forall limit s, fetch limit s = Streamed -> norm_limit limit < 0.
+  Proof.
+    intros limit s H. unfold fetch_payload in H.
+    destruct (norm_limit limit <? 0) eqn:E0; [lia|].
+    destruct (norm_limit limit <? s_decl s); [discriminate|].
+    destruct (0 <? s_decl s); [destruct (s_decl s <=? blen (s_bytes s)); discriminate|].
+    destruct (s_decl s =? 0); [discriminate|].
+    destruct (blen (s_bytes s) <? norm_limit limit); [destruct (s_clean s); discriminate|].
+    destruct (norm_limit limit <? blen (s_bytes s)); [discriminate|]. destruct (s_clean s); discriminate.
+  Qed.
+
+  Lemma respond_body_bound : forall cfg got st resp,
+    0 <= norm_limit (effective (c_pool cfg) (c_proxy cfg)) ->
+    blen (o_body (resp_ cfg got st resp)) <= norm_limit (effective (c_pool cfg) (c_proxy cfg)).
+  Proof.
+    intros cfg got st resp H. unfold respond.
+    destruct (fetch (effective (c_pool cfg) (c_proxy cfg)) (srcw resp)) as [b| | |] eqn:E; cbn [o_body].
+    - apply (fetch_payload_bound _ _ _ E).
+    - rewrite (bl_nil _ _ _ L). exact H.
+    - rewrite (bl_nil _ _ _ L). exact H.
+    - apply fetch_streamed_negative in E. lia.
+  Qed.
+
+  Lemma serve_body_bound : forall cfg req st resp,
+    0 <= norm_limit (effective (c_pool cfg) (c_proxy cfg)) ->
+    blen (o_body (srv cfg req st resp)) <= norm_limit (effective (c_pool cfg) (c_proxy cfg)).
+  Proof.
+    intros cfg req st resp H. unfold serve.
+    assert (F : forall code d, blen (o_body (fail bnil code d)) <= norm_limit (effective (c_pool cfg) (c_proxy cfg))).
+    { intros code d. unfold fail. cbn [o_body]. rewrite (bl_nil _ _ _ L). exact H. }
+    destruct (fetch (effective (c_path cfg) (c_srv cfg)) (srcw req)).
+    - apply respond_body_bound, H.
+    - apply F.
+    - apply F.
+    - destruct (s_clean (srcw req)); [apply respond_body_bound, H|apply F].
+  Qed.
+
+  (** every entry of the cache fits the response limit of the generation that holds it *)
+  Definition cache_fits (g : config * Z) (st : option (Z * B)) : Prop :=
+    forall ent, st = Some ent -> 0 <= seff_of g /\ blen (snd ent) <= seff_of g.
+
+  Lemma hstep_bound : forall g st get req status resp,
+    cache_fits g st ->
+    (0 <= seff_of g -> blen (o_body (fst (hstep blen btake bnil g st get req status resp))) <= seff_of g) /\
+    cache_fits g (snd (hstep blen btake bnil g st get req status resp)).
+  Proof.
+    intros g st get req status resp Hc. unfold hstep.
+    pose proof (serve_body_bound (fst g) req status resp) as Hb. fold (seff_of g) in Hb.
+    destruct st as [ent|].
+    - destruct (o_dispatched (srv (fst g) req status resp) && get && (0 <? snd g)); cbn [fst snd].
+      + split; [intros H; apply (Hc ent eq_refl)|exact Hc].
+      + split; [exact Hb|exact Hc].
+    - cbn [fst snd]. split; [exact Hb|].
+      match goal with |- cache_fits _ (if ?c then _ else _) => destruct c eqn:E end; [|intros ent H; discriminate].
+      intros ent H. inversion H. subst ent. cbn [snd].
+      repeat (apply andb_true_iff in E as [E ?]).
+      assert (Hz : 0 <= seff_of g) by (unfold seff_of; lia). split; [exact Hz|apply Hb, Hz].
+  Qed.
+
+  Fixpoint bounded (l : list ((config * Z) * bool * wire B * Z * wire B)) (outs : list (outcome B)) : Prop :=
+    match l, outs with
+    | [], [] => True
+    | (g, _, _, _, _) :: l', o :: outs' => (0 <= seff_of g -> blen (o_body o) <= seff_of g) /\ bounded l' outs'
+    | _, _ => False
+    end.
+
+  (** across any sequence of mux and pipeline reloads, with or without a memoryCache, a body
+      delivered under a non-negative effective serverMaxBodySize never exceeds THAT limit -
+      the one of the generation that serves the request, also when it comes from the cache *)
+  Theorem limit_in_force : forall l, bounded l (hrun blen btake bnil None None l).
+  Proof.
+    assert (G : forall l prev st, (forall p, prev = Some p -> cache_fits p st) ->
+                bounded l (hrun blen btake bnil prev st l)).
+    { induction l as [|[[[[g get] req] status] resp] t IH]; intros prev st Hp; cbn [hrun bounded]; [exact I|].
+      set (st0 := match prev with Some p => if pipe_same p g then st else None | None => None end).
+      assert (H0 : cache_fits g st0).
+      { subst st0. destruct prev as [p|]; [|intros ent H; discriminate].
+        destruct (pipe_same p g) eqn:E; [|intros ent H; discriminate].
+        intros ent H. destruct (Hp p eq_refl ent H) as [A Bd].
+        unfold pipe_same in E. apply andb_true_iff in E as [E _]. apply andb_true_iff in E as [E1 E2].
+        unfold seff_of in *. assert (Q1 : c_pool (fst p) = c_pool (fst g)) by lia.
+        assert (Q2 : c_proxy (fst p) = c_proxy (fst g)) by lia. rewrite <- Q1, <- Q2. split; assumption. }
+      destruct (hstep_bound g st0 get req status resp H0) as [Hb Hc].
+      destruct (hstep blen btake bnil g st0 get req status resp) as [o st1]. cbn [fst snd] in *.
+      cbn [bounded]. split; [exact Hb|]. apply IH. intros p Hpe. inversion Hpe. subst p. exact Hc. }
+    intros l. apply G. intros p H. discriminate.
+  Qed.
 End Laws.
 
 (** *** the length-level model is the image of any byte-level model *)
@@ -555,7 +664,23 @@ Section ListInstance.
     o_status (serve_list cfg req st resp) = st /\ o_body (serve_list cfg req st resp) = wire_body ztake [] resp /\
     o_frame_ok (serve_list cfg req st resp) = true.
   Proof. exact (response_within_limit_delivered zlen ztake [] list_laws). Qed.
+
+  Lemma l_limit_in_force : forall (l : list ((config * Z) * bool * LW * Z * LW)),
+    bounded zlen l (hrun zlen ztake [] None None l).
+  Proof. exact (limit_in_force zlen ztake [] list_laws). Qed.
 End ListInstance.
+
+(** non-vacuity of [limit_in_force]: cached under 1000, limit lowered to 100, same GET again:
+    the new generation starts with an empty cache, asks the backend and answers 500 *)
+Example reload_cache_nonvacuous :
+  let g1 := ({| c_srv := 0; c_path := 0; c_pool := 0; c_proxy := 1000 |}, 2000) in
+  let g2 := ({| c_srv := 0; c_path := 0; c_pool := 0; c_proxy := 100 |}, 2000) in
+  let get := {| w_enc := EncNone; w_sent := [] |} in
+  let ans := cl_exact (repeat 7%N 600) in
+  map (fun o => (o_status o, zlen (o_body o), match o_backend o with Some _ => true | None => false end))
+      (hrun zlen ztake [] None None [(g1, true, get, 200, ans); (g1, true, get, 200, ans); (g2, true, get, 200, ans)])
+  = [(200, 600, true); (200, 600, false); (500, 0, true)].
+Proof. vm_compute. reflexivity. Qed.
 
 (** non-vacuity: a 16-byte limit at path level over a 64-byte server limit; a 16-byte body
     passes in both framings, a 17-byte one is refused, and the clauses' hypotheses are
